@@ -95,7 +95,7 @@ def main(argv):
     if not a.ids:
         with open(os.path.join(sd, 'RESULTS.json'), 'w') as f:
             json.dump(recs, f, indent=1)
-    missed = [r['id'] for r in recs if r.get('error') or not all(c['caught'] for c in r['checks'].values())]
+    missed = [r['id'] for r in recs if r.get('error') or not any(c['caught'] for c in r['checks'].values())]
     print(f'{len(recs) - len(missed)}/{len(recs)} seeded changes caught; missed: {missed}')
     return 0 if not missed else 1
 
